@@ -121,6 +121,13 @@ func (qs *QueryStore) RebuildIndexes() error {
 			if bytes.Equal(item.Key(), initKey) {
 				continue
 			}
+			// Skip entries without a value. A stored value is never empty, while
+			// index entries are: those of another query store (or of a store
+			// whose index name starts with this store's prefix) share the key
+			// space with the values.
+			if item.ValueSize() == 0 {
+				continue
+			}
 			v := reflect.New(t)
 			err := item.Value(func(dta []byte) error {
 				return json.Unmarshal(dta, v.Interface())
